@@ -313,6 +313,11 @@ class C03(Check):
                 "histories": "all ordered pairs of class representatives"}
 
     def cases(self):
+        base = self._base_cases()
+        # a sample of them also under `python -O` (assert statements compiled away)
+        return base + [{"kind": "optimized", "sub": c} for c in [c for c in base if c.get('kind') == 'hostile'][::6][:5]]
+
+    def _base_cases(self):
         cs = []
         for i, c in enumerate(self.c02.cases()):
             cs.append({"kind": "c02", "i": i})
@@ -400,6 +405,9 @@ class C03(Check):
         return o
 
     def run_case(self, case, stats):
+        if case.get("kind") == "optimized":
+            from ..framework import optimized
+            return optimized(self, case, stats)
         vs = []
         k = case["kind"]
         if k == "one":
